@@ -51,7 +51,7 @@ typedef struct c19_op {
     const char* scope;
     const char* name;        /* function, parameter or data name */
     const char* type;        /* custom type name */
-    unsigned n;              /* EXPECT_N: count; CRASHONFAIL: flag; INSTALL_*: which function set (0: T, 1: U) */
+    unsigned n;              /* EXPECT_N: count; CRASHONFAIL: flag; INSTALL_*: which function set (0: T, 1: U, 2: re-entrant R) */
     int kind;                /* getter kind for *_GET / *_GETDEF */
     int slot;                /* A_OUT*: destination slot */
     c19_val v;               /* parameter / return value / default / data; E_OUT: p = source bytes, size */
@@ -83,6 +83,18 @@ void c19_T_copy(void* dst, const void* src);                 /* copies the whole
 int c19_U_equal(const void* a, const void* b);              /* compares other */
 const char* c19_U_tostring(const void* a);
 void c19_U_copy(void* dst, const void* src);                 /* copies only 'other' */
+
+/* re-entrant custom type R (function set 2): like T, but each callback may make a complete nested mocked call
+ * mock(scope "n").actualCall("h").withParameter("x", 1).returnIntValueOrDefault(-5) through the interface of the back end
+ * that installed it: the C functions below through mock_scope_c(), the C++ objects of the harness through mock(). */
+typedef struct c19_nest_cfg { int in_equal, in_tostring, in_copy; } c19_nest_cfg;
+extern c19_nest_cfg c19_nest;            /* which callbacks nest (set by the harness per program) */
+extern int c19_nest_calls;               /* log: number of nested calls made, */
+extern long long c19_nest_sum;           /*      sum over (position * value returned to the nested call) */
+void c19_nest_log(long long returned);
+int c19_R_equal(const void* a, const void* b);
+const char* c19_R_tostring(const void* a);
+void c19_R_copy(void* dst, const void* src);
 
 /* C back end */
 void c19_run_c(const c19_op* ops, int from, int to, c19_obs* obs, unsigned char (*out)[C19_SLOTSIZE]);
